@@ -17,6 +17,11 @@ def gen_gather(rng):
     for s in sc["specs"]:
         s["flag"] = None if (s["flag"] and s["flag"][0] == "c") else s["flag"]
     sc["k"] = rng.randint(2, 8)
+    # cold setup nodes (roots only: a setup node must not depend on a DAG argument)
+    for s in sc["specs"]:
+        s["setup"] = (not s["preds"]) and s["flag"] is None and rng.random() < 0.35
+        if s["setup"]:
+            s["ret"] = "t"
     return sc
 
 
@@ -27,7 +32,7 @@ def build_with_arg(sc):
             control.node_enter(i, args)
             return S.value(i, s, args)
         body.__name__ = body.__qualname__ = "n%d" % i
-        return xn(body, priority=s["prio"], is_sequential=s["seq"], resource=S.RES[s["res"]])
+        return xn(body, priority=s["prio"], is_sequential=s["seq"], resource=S.RES[s["res"]], setup=bool(s.get("setup")))
     nodes = [mk(i, s) for i, s in enumerate(sc["specs"])]
 
     def describe(a):
@@ -36,7 +41,7 @@ def build_with_arg(sc):
             kw = {}
             if s["flag"] is not None:
                 kw["twz_active"] = vals[s["flag"][1]]
-            args = [vals[j] for j in s["preds"]] or [a]
+            args = [vals[j] for j in s["preds"]] or ([] if s.get("setup") else [a])
             vals.append(nodes[i](*args, **kw))
         return tuple(vals)
     describe.__qualname__ = describe.__name__ = "describe"
@@ -50,7 +55,7 @@ def expected(sc, a):
         if not act:
             vals.append(None)
             continue
-        args = [vals[j] for j in s["preds"]] or [a]
+        args = [vals[j] for j in s["preds"]] or ([] if s.get("setup") else [a])
         vals.append(S.value(i, s, args))
     return tuple(vals)
 
